@@ -157,6 +157,8 @@ double MetaOptimizer::doStep()
         cout << endl;
 
       getParameters_().matchParametersValues(opt.getParameters());
+      // A single step of some optimizers leaves the function at a trial point: set it back to the current point.
+      getFunction()->setParameters(getParameters());
     }
     tolTest += nbParameters_[i] > 0 ? 1 : 0;
   }
